@@ -2,6 +2,7 @@ package syntax
 
 import (
 	"math"
+	"strconv"
 	"strings"
 
 	"github.com/arr-ai/arrai/pkg/fu"
@@ -30,6 +31,7 @@ var verifC07Expand = strings.NewReplacer(
 	"$K", "{(@: x, v: 1), (@: y, v: 2), (@: z, v: 3), (@: 11, v: 4), (@: 12, v: 5), (@: 13, v: 6), (@: 14, v: 7), (@: 15, v: 8), (@: 16, v: 9)}",
 	"$D", "{x + 20: 1, y + 30: 2, z + 40: 3, 11: 4, 12: 5, 13: 6, 14: 7, 15: 8, 16: 9}",
 	"$T", "{\"pear\", 1\\\"fig\", \"apple\", 2\\\"kiwi\", \"plum\", 3\\\"lime\", \"date\", 4\\\"pear\", \"cherry\"}",
+	"$U", "(a: x, b: 2, c: 3, d: 4, e: 5, f: 6, g: 7, h: 8, i: 9, j: 10)",
 	"$F","{(k: 0, a: f), (k: 1, a: g), (k: 2, a: h), (k: 3, a: 0), (k: 4, a: 0), (k: 5, a: 0), (k: 6, a: 0), (k: 7, a: 0), (k: 8, a: 0)}",
 )
 
@@ -63,6 +65,9 @@ var verifC07Programs = []string{
 	"$S => (k: ., v: . * .) -> . <&> {(k: x)}",
 	"$D +> {x + 20: y, 50: z}",
 	"$K => .@",
+	"$U :> . * 2",
+	"$U +> (k: y, a: z)",
+	"{$U, ($U :> . + 1)} orderby .",
 	"$T orderby .",
 	"$T => (. ++ \"s\")",
 	"$T | {x}",
@@ -74,10 +79,12 @@ func verifC07IntScope() rel.Scope {
 	return rel.EmptyScope.With("x", rel.NewNumber(float64(x))).With("y", rel.NewNumber(1)).With("z", rel.NewNumber(2))
 }
 
-// verif:bound VerifC07Programs 33 programs (reductions, orderby/rank over numbers and over strings of mixed offsets, calls, set operators, nest, joins, tuple maps, dict ops, nested traversals) over collections of 9..11 members, x in [-2,2] (symbolic), y = 1, z = 2; second evaluation with at most 1 enumeration out of insertion order (any permutation of up to 3 members, any transposition of more); VerifC07Floats and VerifC07Superimposed allow 2 in the thorough tier
+// verif:bound VerifC07Programs 36 programs (reductions, orderby/rank over numbers and over strings of mixed offsets, calls, set operators, nest, joins, tuple maps, dict ops, nested traversals) over collections of 9..11 members, x in [-2,2] (symbolic), y = 1, z = 2; second evaluation with at most 1 enumeration out of insertion order (any permutation of up to 3 members, any transposition of more); VerifC07Floats and VerifC07Superimposed allow 2 in the thorough tier
 // verif:cover VerifC07Programs value deviated
 func VerifC07Programs() {
-	src := verifC07Expand.Replace(verifC07Programs[verifChoice(len(verifC07Programs))])
+	idx := verifChoice(len(verifC07Programs))
+	tag := "-" + strconv.Itoa(idx)
+	src := verifC07Expand.Replace(verifC07Programs[idx])
 	sc := verifC07IntScope()
 	r0 := verifC08Eval(src, sc)
 	verifOrderFreeN(1) // both tiers: two deviations over 36 programs do not finish within an hour
@@ -87,10 +94,10 @@ func VerifC07Programs() {
 	}
 	verifOrderInsertion()
 	verifC07Output(r1)
-	verifAssert("seed-independent-failure", r0.failed == r1.failed)
+	verifAssert("seed-independent-failure"+tag, r0.failed == r1.failed)
 	if !r0.failed && !r1.failed {
 		verifCover("value")
-		verifAssert("seed-independent-value", r0.v.Equal(r1.v) && r1.v.Equal(r0.v))
+		verifAssert("seed-independent-value"+tag, r0.v.Equal(r1.v) && r1.v.Equal(r0.v))
 	}
 }
 
@@ -157,10 +164,12 @@ func VerifC07Floats() {
 	}
 }
 
-// verif:bound VerifC07Printed the 33 programs with x in {0,1}, y = 1, z = 2 (concrete: numbers are printed): printed form (rel.Repr and String) of the result identical under reordered enumeration (the printing code itself runs in order-free mode)
+// verif:bound VerifC07Printed the 36 programs with x in {0,1}, y = 1, z = 2 (concrete: numbers are printed): printed form (rel.Repr and String) of the result identical under reordered enumeration (the printing code itself runs in order-free mode)
 // verif:cover VerifC07Printed printed
 func VerifC07Printed() {
-	src := verifC07Expand.Replace(verifC07Programs[verifChoice(len(verifC07Programs))])
+	idx := verifChoice(len(verifC07Programs))
+	tag := "-" + strconv.Itoa(idx) // one label per program, so that every program keeps its own counterexamples
+	src := verifC07Expand.Replace(verifC07Programs[idx])
 	sc := rel.EmptyScope.With("x", rel.NewNumber(float64(verifChoice(2)))).With("y", rel.NewNumber(1)).With("z", rel.NewNumber(2))
 	r0 := verifC08Eval(src, sc)
 	var p0, s0 string
@@ -173,9 +182,9 @@ func VerifC07Printed() {
 	verifAssert("seed-independent-failure", r0.failed == r1.failed)
 	if !r0.failed && !r1.failed {
 		verifCover("printed")
-		verifAssert("seed-independent-repr", p0 == fu.Repr(r1.v))
-		verifAssert("seed-independent-string", s0 == r1.v.String())
+		verifAssert("seed-independent-repr"+tag, p0 == fu.Repr(r1.v))
+		verifAssert("seed-independent-string"+tag, s0 == r1.v.String())
 		// and the first result printed again with its enumerations reordered
-		verifAssert("seed-independent-reprint", p0 == fu.Repr(r0.v))
+		verifAssert("seed-independent-reprint"+tag, p0 == fu.Repr(r0.v))
 	}
 }
